@@ -7,7 +7,8 @@ Case shape:
    "sig": {"pos": [[name, default|null], ...], "varargs": name|null,
            "kwonly": [[name, default|null], ...], "varkw": name|null},
    "c1": {"args": [int], "kwargs": [[name, int]], "override": bool, "ignore": bool},
-   "c2": {"args": [int], "kwargs": [[name, int]], "override": bool|null, "ignore": bool|null}}
+   "c2": {"args": [int], "kwargs": [[name, int]], "override": bool|null, "ignore": bool|null},
+   "tc_call": bool}                          # false: the call runs under pg.enable_type_check(False)
 
 functor: `F(*c1.args, **c1.kwargs, override_args=…, ignore_extra_args=…)(*c2.args, **c2.kwargs …)`;
 cls:     `Cls(*c1.args, **c1.kwargs)` where Cls = pg.symbolize(<generated class>), c2 absent.
@@ -99,7 +100,10 @@ def merge_kw(m1, m2):
 
 def to_call(sig, named, va, extra):
   if not va:
-    return {'args': [], 'kwargs': named + extra}
+    po = [p[0] for p in sig['pos'][:sig.get('posonly', 0)]]
+    d = dict((k, v) for k, v in named)
+    return {'args': [d[n] for n in po if n in d],
+            'kwargs': [kv for kv in named if kv[0] not in po] + extra}
   pos = [p[0] for p in sig['pos']]
   d = dict((k, v) for k, v in named)
   return {'args': [d[n] for n in pos if n in d] + va,
@@ -128,8 +132,10 @@ def param_list(sig, ann):
   t = ': int' if ann else ''
   eq = ' = ' if ann else '='
   parts = []
-  for n, d in sig['pos']:
+  for i, (n, d) in enumerate(sig['pos']):
     parts.append('%s%s%s' % (n, t, '' if d is None else '%s%d' % (eq, d)))
+    if i + 1 == sig.get('posonly', 0):
+      parts.append('/')
   if sig['varargs'] is not None:
     parts.append('*%s%s' % (sig['varargs'], t))
   elif sig['kwonly']:
@@ -188,6 +194,7 @@ def canon_assignment(sig, loc):
 _KINDS = [
     (re.compile(r'takes (from )?\d+ (to \d+ )?positional arguments? but \d+ '), 'too_many_positional'),
     (re.compile(r'got multiple values for argument'), 'multiple_values'),
+    (re.compile(r'got some positional-only arguments passed as keyword arguments'), 'posonly_as_keyword'),
     (re.compile(r'got an unexpected keyword argument'), 'unexpected_keyword'),
     (re.compile(r'missing \d+ required (positional|keyword-only) arguments?'), 'missing_required'),
 ]
@@ -277,10 +284,11 @@ class C18(Prop):
       '(hand-written from functor.py, object.py, class_wrapper.py; tied by correspondence only)',
       'outside the model: docstring parsing, auto_typing conversion of annotations (exercised by the '
       'generator, assumed value-preserving for int), return-value specs, functor auto-call scope, '
-      'pg.compound, subclassed functors (`class F(pg.Functor)`), positional-only parameters, MISSING_VALUE '
+      'pg.compound, subclassed functors (`class F(pg.Functor)`), MISSING_VALUE '
       'passed as an argument, non-scalar argument values',
   ]
   assumptions = ['argument values are ints (opaque scalars); no argument is pg.MISSING_VALUE',
+                 'positional-only parameters are not passed by keyword (known finding F62)',
                  'keywords are not named like the *args parameter (pyglove exposes it as a symbolic field)']
 
   # -- generation -------------------------------------------------------------------------
@@ -294,8 +302,11 @@ class C18(Prop):
       pos.append([POS_NAMES[i], rng.below(10) if i >= npos - ndef else None])
     nkw = min(rng.weighted([(5, 0), (4, 1), (3, 2), (1, 3)]), max_kw)
     kwonly = [[KW_NAMES[i], rng.below(10) if rng.chance(0.5) else None] for i in range(nkw)]
-    return {'pos': pos, 'varargs': VARARGS if rng.chance(0.4) else None,
-            'kwonly': kwonly, 'varkw': VARKW if rng.chance(0.4) else None}
+    sig = {'pos': pos, 'varargs': VARARGS if rng.chance(0.4) else None,
+           'kwonly': kwonly, 'varkw': VARKW if rng.chance(0.4) else None}
+    if npos and rng.chance(0.15):
+      sig['posonly'] = rng.randint(1, npos)     # def f(a, b, /, c): leading positional-only parameters
+    return sig
 
   def gen_valid_call(self, rng, sig, partial=0.0):
     """A call that binds (each required parameter supplied unless dropped with prob. `partial`)."""
@@ -329,8 +340,12 @@ class C18(Prop):
     call = {'args': list(call['args']), 'kwargs': [list(kv) for kv in call['kwargs']]}
     names = sig_names(sig)
     k = rng.below(7)
-    if k == 0:      # too many positionals
-      call['args'] = call['args'] + [rng.below(10) for _ in range(len(sig['pos']) - len(call['args']) + rng.randint(1, 2))]
+    if k == 0:      # too many positionals (must not spill into keyword-only parameters)
+      call['args'] = call['args'] + [rng.below(10) for _ in range(
+          len(sig['pos']) - len(call['args']) + rng.randint(1, 1 + len(sig['kwonly'])))]
+      if rng.chance(0.6):    # ... also when the keyword-only ones are not given by keyword
+        kwn = [p[0] for p in sig['kwonly']]
+        call['kwargs'] = [kv for kv in call['kwargs'] if kv[0] not in kwn or rng.chance(0.3)]
     elif k == 1 and call['args']:    # duplicate between positional and keyword
       n = sig['pos'][rng.below(min(len(call['args']), len(sig['pos'])))][0] if sig['pos'] else 'a'
       call['kwargs'] = [kv for kv in call['kwargs'] if kv[0] != n] + [[n, rng.below(10)]]
@@ -397,6 +412,11 @@ class C18(Prop):
       call = self.gen_valid_call(rng, sig, partial=0.15 if rng.chance(0.3) else 0.0)
       if rng.chance(0.35):
         call = self.perturb(rng, sig, call)
+      elif rng.chance(0.15):
+        # arity pattern: more positionals than positional parameters, keyword-only ones partly omitted
+        over = rng.randint(1, 1 + len(sig['kwonly']))
+        call = {'args': [rng.below(10) for _ in range(len(sig['pos']) + over)],
+                'kwargs': [[n, rng.below(10)] for n, _ in sig['kwonly'] if rng.chance(0.4)]}
       case['mode'] = 'direct'
       case['c1'] = dict(call, override=False, ignore=False)
       return case
@@ -468,6 +488,8 @@ class C18(Prop):
       # where == 2: surplus without the option (expected to be refused)
     case['c1'] = dict(c1, kwargs=dedupe(c1['kwargs']), **c1f)
     case['c2'] = dict(c2, kwargs=dedupe(c2['kwargs']), **c2f)
+    # the call (not the construction) runs under pg.enable_type_check(False) in ~12 % of the cases
+    case['tc_call'] = not rng.chance(0.12)
     return case
 
   def generate(self, rng, tier):
@@ -613,25 +635,37 @@ class C18(Prop):
       call_kw['override_args'] = c2['override']
     if c2['ignore'] is not None:
       call_kw['ignore_extra_args'] = c2['ignore']
-    model['call'] = outcome(lambda: obj(*a2, **call_kw), sig)
-    model['call0'] = outcome(lambda: obj(), sig)
+    import contextlib
+    scope = (contextlib.nullcontext if case.get('tc_call', True) else (lambda: pg.enable_type_check(False)))
+    with scope():
+      model['call'] = outcome(lambda: obj(*a2, **call_kw), sig)
+      model['call0'] = outcome(lambda: obj(), sig)
     # the functor must not have been changed by being called
     obs['init_args_after_call'] = canon_init_args(obj, missing)
-    obs['clone_call'] = outcome(lambda: obj.clone()(*a2, **call_kw), sig)
-    obs['clone_deep_call'] = outcome(lambda: obj.clone(deep=True)(*a2, **call_kw), sig)
+    with scope():
+      obs['clone_call'] = outcome(lambda: obj.clone()(*a2, **call_kw), sig)
+      obs['clone_deep_call'] = outcome(lambda: obj.clone(deep=True)(*a2, **call_kw), sig)
     try:
       rt = pg.from_json(obj.to_json())
       obs['json_init_args'] = canon_init_args(rt, missing)
       obs['json_call0'] = outcome(lambda: rt(), sig)
+      obs['json_sets'] = [sorted(rt.specified_args), sorted(rt.default_args), sorted(rt.non_default_args)]
     except Exception as e:   # pylint: disable=broad-except
       obs['json_init_args'] = 'raises:' + type(e).__name__
       obs['json_call0'] = {'err': 'roundtrip:' + type(e).__name__}
+      obs['json_sets'] = None
+    # the model also predicts the round trip and the clone (Functor.jsonRoundTrip / Functor.clone)
+    model['json_init_args'] = obs['json_init_args']
+    model['json_call0'] = obs['json_call0']
+    if obs['json_sets'] is not None:
+      model['json_specified'], model['json_default'], model['json_nondefault'] = obs['json_sets']
+    model['clone_call'] = obs['clone_call']
     return {'model': model, 'obs': obs}
 
   def compare(self, case, impl_out, model_out):
     a = impl_out['model']
     b = dict(model_out)
-    for k in ('specified', 'default', 'nondefault'):
+    for k in ('specified', 'default', 'nondefault', 'json_specified', 'json_default', 'json_nondefault'):
       if k in b:
         b[k] = sorted(b[k])
     keys = set(a) | set(b)
@@ -666,16 +700,35 @@ class C18(Prop):
     return {'signature': sig,
             'what': '%s: calling the original directly gives %s, the symbolic object gives %s' % (stage, expected, got)}
 
+  def passes_posonly_by_keyword(self, case):
+    sig = case['sig']
+    po = {p[0] for p in sig['pos'][:sig.get('posonly', 0)]}
+    calls = [case['c1']] + ([case['c2']] if case['kind'] == 'functor' else [])
+    return any(k in po for c in calls for k, _ in c['kwargs'])
+
   def oracle(self, case, out):
+    obs = out['obs']
+    f = self._oracle_core(case, out)
+    if f and self.passes_posonly_by_keyword(case):
+      # F62: symbolic fields are addressable by name, also those of positional-only parameters
+      return {'signature': 'posonly-keyword',
+              'what': 'a positional-only parameter is passed by keyword: ' + f['what']}
+    if f:
+      return f
+    # Generated __init__ signature = signature of the original.
+    if obs['init_signature'] != obs['plain_signature']:
+      relaxed = [[n, 'POSITIONAL_OR_KEYWORD' if k == 'POSITIONAL_ONLY' else k, d, h]
+                 for n, k, d, h in obs['plain_signature']]
+      return {'signature': 'posonly-signature' if obs['init_signature'] == relaxed else 'generated-init-signature',
+              'what': 'inspect.signature(cls.__init__) = %s, original: %s' % (obs['init_signature'], obs['plain_signature'])}
+    return None
+
+  def _oracle_core(self, case, out):
     m, obs = out['model'], out['obs']
     sig = case['sig']
     if obs.get('bind_disagrees'):
       return {'signature': 'interpreter-self-disagreement',
               'what': 'inspect.signature().bind differs from the real call: %s' % obs['bind_disagrees'][:1]}
-    # Generated __init__ signature = signature of the original.
-    if obs['init_signature'] != obs['plain_signature']:
-      return {'signature': 'generated-init-signature',
-              'what': 'inspect.signature(cls.__init__) = %s, original: %s' % (obs['init_signature'], obs['plain_signature'])}
     if self.uses_varargs_name_as_keyword(case):
       return None      # documented precondition: the *args parameter is a symbolic field of that name
     c1 = case['c1']
@@ -728,6 +781,11 @@ class C18(Prop):
         return {'signature': 'roundtrip:%s' % k, 'what': '%s = %s, original %s' % (k, obs[k], m['call'])}
     # the two-stage call
     ignore = c2['ignore'] if c2['ignore'] is not None else c1['ignore']
+    if not (c1['args'] or c1['kwargs']) and not ignore:
+      # late binding: F()(*a, **k) is f(*a, **k), literally
+      f = self._mismatch('late-binding', m['py_c2'], m['call'])
+      if f:
+        return f
     if m['effective'] is None:
       # the call-time arguments cannot be distributed over the parameters: same kind of error
       expected = obs['py_c2_dropped'] if ignore else m['py_c2']
@@ -777,9 +835,14 @@ class C18(Prop):
     h = ['kind:%s' % case['kind'], 'mode:%s' % case.get('mode', '?'),
          'npos:%d' % len(sig['pos']), 'nkwonly:%d' % len(sig['kwonly']),
          'varargs:%s' % (sig['varargs'] is not None), 'varkw:%s' % (sig['varkw'] is not None),
-         'pos-defaults:%d' % sum(1 for _, d in sig['pos'] if d is not None)]
+         'pos-defaults:%d' % sum(1 for _, d in sig['pos'] if d is not None),
+         'posonly:%d' % sig.get('posonly', 0)]
+    if self.passes_posonly_by_keyword(case):
+      h.append('posonly-passed-by-keyword')
     if case.get('ann'):
       h.append('annotated%s' % ('+auto_typing' if case.get('auto_typing') else ''))
+    if not case.get('tc_call', True):
+      h.append('call-under-type-check-off')
     h.append('py_c1:%s' % (m['py_c1'].get('kind') or 'ok'))
     if case['kind'] == 'cls':
       h.append('direct:%s' % (m['direct'].get('err') or 'ok'))
